@@ -21,6 +21,8 @@ const PRELUDE: &str = r#"
 (define (ping) (pong))
 (define (pong) (ping))
 (define (count-up n) (count-up (+ n 1)))
+(define (spin-if n) (if (< n 0) n (spin-if (+ n 1))))
+(define (spin-if2 n m) (if (> (car (list n)) m) n (spin-if2 n (+ m 1))))
 (define (deep n) (+ 1 (deep (+ n 1))))
 (define (prim-loop) (car (list 1 2)) (vector-ref (vector 1 2) 0) (prim-loop))
 (define (alloc-loop acc) (alloc-loop (cons (box 1) '())))
@@ -38,7 +40,7 @@ const MODULE: &str = "(provide mspin mping)\n(define (mspin x) (mspin (+ x 1)))\
 
 /// Shapes that are known to be expensive when they go wrong get fewer arrival
 /// points: every STRIDE-th step of the window.
-const SPARSE: &[&str] = &["tree-recursion", "ackermann", "module-self-tail-loop", "module-mutual-tail-loop", "transduce-into-count", "transduce-into-last", "transduce-into-nth"];
+const SPARSE: &[&str] = &["conditional-self-tail-loop", "conditional-self-tail-loop-with-primitive-test", "tree-recursion", "ackermann", "module-self-tail-loop", "module-mutual-tail-loop", "transduce-into-count", "transduce-into-last", "transduce-into-nth"];
 const STRIDE: u64 = 24;
 
 /// (name, program)
@@ -53,6 +55,8 @@ pub const SHAPES: &[(&str, &str)] = &[
     ("self-tail-loop", "(spin)"),
     ("mutual-tail-loop", "(ping)"),
     ("tail-loop-with-arg", "(count-up 0)"),
+    ("conditional-self-tail-loop", "(spin-if 0)"),
+    ("conditional-self-tail-loop-with-primitive-test", "(spin-if2 0 1)"),
     ("non-tail-recursion", "(deep 0)"),
     ("primitive-only-loop", "(prim-loop)"),
     ("allocating-loop", "(alloc-loop '())"),
